@@ -1,11 +1,12 @@
 (* C16, model C: an executable semantics of promise-job ordering, written from ECMA-262 (27.2 Promise
-   objects, 27.7 async functions, 9.5 jobs) -- NOT from boa.  It predicts the order of `print` calls of
-   programs of a small language: promise chains, thenables, async functions, combinators.
+   objects, 27.6 AsyncGenerator objects, 27.7 async functions, 9.5 jobs) -- NOT from boa.  It predicts the
+   order of `print` calls of programs of a small language: promise chains, thenables, async functions,
+   combinators, async generators driven by next / return / throw.
    Definitions only.
 
-   Programs: a table of functions `function fN(a, b) { stmts }` / `async function fN(a, b) { stmts }`
-   and a main statement list over global variables vN.  tools/.. gen/c16_gen.py prints the same AST as
-   JavaScript and as a Gallina term. *)
+   Programs: a table of functions `function fN(a, b) { stmts }` / `async function fN(a, b) { stmts }` /
+   `async function* fN(a, b) { stmts }` and a main statement list over global variables vN.
+   gen/c16_gen.py prints the same AST as JavaScript and as a Gallina term. *)
 From Coq Require Import List Arith Bool String DecimalString.
 Import ListNotations.
 From C16 Require Import Jobs.
@@ -14,6 +15,7 @@ Definition fid := nat.
 Definition var := nat.
 
 Inductive comb_kind : Type := KAll | KRace | KAllSettled | KAny.
+Inductive rkind : Type := RNext | RReturn | RThrow.     (* AsyncGenerator.prototype.next / return / throw *)
 
 Inductive expr : Type :=
 | EUndef
@@ -31,7 +33,8 @@ Inductive expr : Type :=
 | ECatch (p r : expr)                     (* (p).catch(r) *)
 | EFinally (p f : expr)                   (* (p).finally(f) *)
 | EComb (k : comb_kind) (l : list expr)   (* Promise.all([...]) ... *)
-| ECall (f a : expr).                     (* (f)(a) *)
+| ECall (f a : expr)                      (* (f)(a) *)
+| ENext (k : rkind) (g a : expr).         (* (g).next(a) / (g).return(a) / (g).throw(a) *)
 
 Inductive stmt : Type :=
 | SPrint (l : nat) (e : expr)             (* print("L<l> " + show(e)) *)
@@ -40,10 +43,16 @@ Inductive stmt : Type :=
 | SReturn (e : expr)
 | SThrow (e : expr)
 | SAwait (x : var) (e : expr)             (* vX = await e *)
+| SYield (x : var) (e : expr)             (* vX = yield e      (async generator bodies) *)
+| SYieldStar (x : var) (e : expr)         (* vX = yield* e     (async generator bodies; e an async generator object) *)
+| SForAwait (x git : var) (e : expr) (body : list stmt)
+                                          (* for await (vX of (vGIT = e)) { body }   (async function bodies;
+                                             body contains no return) *)
 | STry (body : list stmt) (x : var) (handler : list stmt)    (* try { body } catch (e) { vX = e; handler } *)
 | SHang.                                  (* for (;;) {}  -- exceeds the loop-iteration limit: an engine error *)
 
-Record fdef : Type := mkF { fasync : bool; fbody : list stmt }.
+Inductive fkind : Type := FSync | FAsync | FAsyncGen.
+Record fdef : Type := mkF { fkindof : fkind; fbody : list stmt }.
 Record prog : Type := mkProg { pfuns : list fdef; pmain : list stmt }.
 
 (* ---------- values ---------- *)
@@ -59,6 +68,8 @@ Inductive value : Type :=
 | VSettled (ok : bool) (v : value)
 | VTypeError
 | VAggErr (l : list value)
+| VGen (g : nat)                          (* an async generator object *)
+| VIter (v : value) (done : bool)         (* CreateIterResultObject *)
 with callable : Type :=
 | CUser (f : fid)
 | CResolve (p flag : nat)                 (* promise resolve function, 27.2.1.3.2 *)
@@ -72,7 +83,9 @@ with callable : Type :=
 | CAllElem (a i : nat)                    (* Promise.all resolve element function *)
 | CSettledFul (a i : nat)
 | CSettledRej (a i : nat)
-| CAnyRej (a i : nat).
+| CAnyRej (a i : nat)
+| CAGRetFul (g : nat)                     (* AsyncGeneratorAwaitReturn onFulfilled, 27.6.3.9 *)
+| CAGRetRej (g : nat).
 
 Inductive pstate : Type := Pending | Fulfilled (v : value) | Rejected (v : value).
 
@@ -85,8 +98,29 @@ Inductive job : Type :=
 | JReact (r : reaction) (arg : value)                    (* NewPromiseReactionJob *)
 | JThenable (p : nat) (thenable : value) (t : thenfn).   (* NewPromiseResolveThenableJob *)
 
-Inductive frame : Type := FSeq (rest : list stmt) | FCatch (x : var) (handler : list stmt).
-Record kont : Type := mkK { kstmts : list stmt; kframes : list frame; kargs : list value; kcap : cap; kvar : var }.
+Inductive frame : Type :=
+| FSeq (rest : list stmt)
+| FCatch (x : var) (handler : list stmt)
+| FFor (x git : var) (body : list stmt).   (* inside the body of a for-await loop over the iterator held in vGIT *)
+(* who owns a running body: a plain function, an async function (its promise capability), an async generator *)
+Inductive actx : Type := ANone | AFun (c : cap) | AGen (g : nat).
+(* what an Await was part of: `vX = await e`; the Await inside AsyncGeneratorYield (27.6.3.8 step 5) of `vX = yield e`;
+   the Await of `return e` in an async generator / of a return resumption (AsyncGeneratorUnwrapYieldResumption) *)
+Inductive kkind : Type :=
+| KAwait (x : var) | KYield (x : var) | KRet
+| KDeleg (x : var) (inner : nat) (isret : bool)   (* yield*: the Await of innerResult (15.5.5), inner.return path or not *)
+| KDelegRet (x : var) (inner : nat)               (* yield*: AsyncGeneratorYield's own Await of a return resumption value
+                                                     (AsyncGeneratorUnwrapYieldResumption) before it is forwarded *)
+| KFor (x git : var) (body : list stmt)            (* for await: the Await of the next() result (14.7.5.7) *)
+| KRethrow (e : value).                            (* AsyncIteratorClose(iterator, throw completion): Await of return() *)
+Record kont : Type := mkK { kstmts : list stmt; kframes : list frame; kargs : list value; kctx : actx; kkindof : kkind }.
+(* AsyncGeneratorRequest *)
+Record request : Type := mkRq { rq_kind : rkind; rq_val : value; rq_cap : cap }.
+Inductive agstate : Type := AGStart | AGYield | AGExec | AGDrain | AGDone.
+Record agen : Type := mkAG {
+  ag_state : agstate; ag_queue : list request; ag_fn : fid; ag_args : list value;
+  ag_kont : option (list stmt * list frame * var * option nat) }.
+  (* where `vX = yield` / `vX = yield*` is suspended; Some inner: delegating to that generator *)
 Record comb : Type := mkComb { cvals : list value; cremaining : nat; ccap : cap; ccalled : list nat }.
 
 Record state : Type := mkSt {
@@ -94,20 +128,22 @@ Record state : Type := mkSt {
   flags : list bool;                (* alreadyResolved records *)
   combs : list comb;
   konts : list (option kont);       (* suspended async function bodies; resumed at most once *)
+  agens : list agen;                (* async generator objects *)
   store : list value;               (* global variables *)
   queue : list job;                 (* the job queue, HostEnqueuePromiseJob order *)
   out : list (nat * value)          (* the print trace *)
 }.
 
-Definition st0 : state := mkSt [] [] [] [] [] [] [].
+Definition st0 : state := mkSt [] [] [] [] [] [] [] [].
 
-Definition set_proms s x := mkSt x (flags s) (combs s) (konts s) (store s) (queue s) (out s).
-Definition set_flags s x := mkSt (proms s) x (combs s) (konts s) (store s) (queue s) (out s).
-Definition set_combs s x := mkSt (proms s) (flags s) x (konts s) (store s) (queue s) (out s).
-Definition set_konts s x := mkSt (proms s) (flags s) (combs s) x (store s) (queue s) (out s).
-Definition set_store s x := mkSt (proms s) (flags s) (combs s) (konts s) x (queue s) (out s).
-Definition set_queue s x := mkSt (proms s) (flags s) (combs s) (konts s) (store s) x (out s).
-Definition set_out s x := mkSt (proms s) (flags s) (combs s) (konts s) (store s) (queue s) x.
+Definition set_proms s x := mkSt x (flags s) (combs s) (konts s) (agens s) (store s) (queue s) (out s).
+Definition set_flags s x := mkSt (proms s) x (combs s) (konts s) (agens s) (store s) (queue s) (out s).
+Definition set_combs s x := mkSt (proms s) (flags s) x (konts s) (agens s) (store s) (queue s) (out s).
+Definition set_konts s x := mkSt (proms s) (flags s) (combs s) x (agens s) (store s) (queue s) (out s).
+Definition set_agens s x := mkSt (proms s) (flags s) (combs s) (konts s) x (store s) (queue s) (out s).
+Definition set_store s x := mkSt (proms s) (flags s) (combs s) (konts s) (agens s) x (queue s) (out s).
+Definition set_queue s x := mkSt (proms s) (flags s) (combs s) (konts s) (agens s) (store s) x (out s).
+Definition set_out s x := mkSt (proms s) (flags s) (combs s) (konts s) (agens s) (store s) (queue s) x.
 
 Fixpoint list_set {A : Type} (d : A) (l : list A) (n : nat) (x : A) : list A :=
   match n, l with
@@ -125,6 +161,17 @@ Definition getvar (x : var) (s : state) : value := nth x (store s) VUndef.
 Definition dummy_prom : prom := mkP Pending [] [].
 Definition get_prom (p : nat) (s : state) : prom := nth p (proms s) dummy_prom.
 Definition put_prom (p : nat) (x : prom) (s : state) : state := set_proms s (list_set dummy_prom (proms s) p x).
+
+Definition dummy_agen : agen := mkAG AGDone [] 0 [] None.
+Definition get_ag (g : nat) (s : state) : agen := nth g (agens s) dummy_agen.
+Definition put_ag (g : nat) (a : agen) (s : state) : state := set_agens s (list_set dummy_agen (agens s) g a).
+Definition set_ag_state (g : nat) (st : agstate) (s : state) : state :=
+  let a := get_ag g s in put_ag g (mkAG st (ag_queue a) (ag_fn a) (ag_args a) (ag_kont a)) s.
+Definition set_ag_kont (g : nat) (k : option (list stmt * list frame * var * option nat)) (s : state) : state :=
+  let a := get_ag g s in put_ag g (mkAG (ag_state a) (ag_queue a) (ag_fn a) (ag_args a) k) s.
+(* AsyncGeneratorEnqueue *)
+Definition enqueue_req (g : nat) (r : request) (s : state) : state :=
+  let a := get_ag g s in put_ag g (mkAG (ag_state a) (ag_queue a ++ [r]) (ag_fn a) (ag_args a) (ag_kont a)) s.
 
 Definition new_prom (s : state) : nat * state :=
   (List.length (proms s), set_proms s (proms s ++ [dummy_prom])).
@@ -354,6 +401,67 @@ Section Open.
     | CSuspend => Ok VUndef s
     end.
 
+  (* ---- async generators, 27.6.3 ---- *)
+  (* AsyncGeneratorCompleteStep(generator, completion, done): the first request is removed and its promise settled.
+     [c] = inl v: normal completion v; inr e: throw completion e *)
+  Definition complete_step (g : nat) (c : value + value) (done : bool) (s : state) : res unit :=
+    let a := get_ag g s in
+    match ag_queue a with
+    | [] => Stuck
+    | r :: q' =>
+      let s1 := put_ag g (mkAG (ag_state a) q' (ag_fn a) (ag_args a) (ag_kont a)) s in
+      match c with
+      | inl v => bind (callf (cres (rq_cap r)) [VIter v done] s1) (fun _ s2 => Ok tt s2)
+      | inr e => bind (callf (crej (rq_cap r)) [e] s1) (fun _ s2 => Ok tt s2)
+      end
+    end.
+
+  (* AsyncGeneratorDrainQueue, with AsyncGeneratorAwaitReturn inlined in the `return` arm; n: fuel *)
+  Fixpoint drain (n : nat) (g : nat) (s : state) {struct n} : res unit :=
+    match n with
+    | 0 => NoFuel
+    | S n' =>
+      match ag_queue (get_ag g s) with
+      | [] => Ok tt (set_ag_state g AGDone s)
+      | r :: _ =>
+        match rq_kind r with
+        | RReturn =>
+          (* AsyncGeneratorAwaitReturn: PromiseResolve(%Promise%, value), PerformPromiseThen(promise, onF, onR) *)
+          match promise_resolve (rq_val r) (set_ag_state g AGDrain s) with
+          | Ok (VProm p) s1 => Ok tt (perform_then p (Some (CAGRetFul g)) (Some (CAGRetRej g)) None s1)
+          | Ok _ _ => Stuck
+          | Thr e s1 => bind (complete_step g (inr e) true s1) (fun _ s2 => drain n' g s2)
+          | Abort s1 => Abort s1
+          | NoFuel => NoFuel
+          | Stuck => Stuck
+          end
+        | RNext => bind (complete_step g (inl VUndef) true s) (fun _ s1 => drain n' g s1)
+        | RThrow => bind (complete_step g (inr (rq_val r)) true s) (fun _ s1 => drain n' g s1)
+        end
+      end
+    end.
+
+  (* what happens when an async generator body completes (AsyncGeneratorStart steps g-l) *)
+  Definition finish_gen (n : nat) (g : nat) (k : completion) (s : state) : res value :=
+    match k with
+    | CSuspend => Ok VUndef s
+    | _ =>
+      let c := match k with CReturn v => inl v | CThrow e => inr e | _ => inl VUndef end in
+      bind (complete_step g c true (set_ag_state g AGDrain s)) (fun _ s1 =>
+      bind (drain n g s1) (fun _ s2 => Ok VUndef s2))
+    end.
+
+  Definition finish (n : nat) (ctx : actx) (k : completion) (s : state) : res value :=
+    match ctx with
+    | AFun c => finish_async c k s
+    | AGen g => finish_gen n g k s
+    | ANone => Stuck
+    end.
+
+  (* the onFulfilled / onRejected closures of AsyncGeneratorAwaitReturn *)
+  Definition await_return_settled (n : nat) (g : nat) (c : value + value) (s : state) : res value :=
+    bind (complete_step g c true s) (fun _ s1 => bind (drain n g s1) (fun _ s2 => Ok VUndef s2)).
+
   (* a job *)
   Definition run_job (j : job) (s : state) : res unit :=
     match j with
@@ -390,17 +498,23 @@ Section Open.
     end.
 End Open.
 
-(* find the innermost enclosing catch *)
-Fixpoint find_catch (fr : list frame) : option (var * list stmt * list frame) :=
+(* unwinding a throw completion: the innermost enclosing catch, or a for-await loop whose iterator must be closed first *)
+Inductive unwind : Type :=
+| UNone
+| UCatch (x : var) (h : list stmt) (fr : list frame)
+| UClose (git : var) (fr : list frame).
+
+Fixpoint find_catch (fr : list frame) : unwind :=
   match fr with
-  | [] => None
+  | [] => UNone
   | FSeq _ :: r => find_catch r
-  | FCatch x h :: r => Some (x, h, r)
+  | FCatch x h :: r => UCatch x h r
+  | FFor _ git _ :: r => UClose git r
   end.
 
 Section Interp.
   Variable funs : list fdef.
-  Definition dummy_fdef : fdef := mkF false [].
+  Definition dummy_fdef : fdef := mkF FSync [].
 
   Fixpoint call (fuel : nat) (c : callable) (args : list value) (s : state) {struct fuel} : res value :=
     match fuel with
@@ -409,18 +523,23 @@ Section Interp.
       match c with
       | CUser fn =>
         let d := nth fn funs dummy_fdef in
-        if fasync d then
+        match fkindof d with
+        | FAsync =>
           (* 27.7.5.1 AsyncFunctionStart *)
           let '(cp, s1) := new_cap s in
-          match exec f (fbody d) [] args (Some cp) s1 with
+          match exec f (fbody d) [] args (AFun cp) s1 with
           | Ok k s2 => bind (finish_async (call f) cp k s2) (fun _ s3 => Ok (cprom cp) s3)
           | Thr e s2 => Thr e s2
           | Abort s2 => Abort s2
           | NoFuel => NoFuel
           | Stuck => Stuck
           end
-        else
-          match exec f (fbody d) [] args None s with
+        | FAsyncGen =>
+          (* calling an async generator function creates the object in state suspended-start *)
+          let g := List.length (agens s) in
+          Ok (VGen g) (set_agens s (agens s ++ [mkAG AGStart [] fn args None]))
+        | FSync =>
+          match exec f (fbody d) [] args ANone s with
           | Ok CNormal s1 => Ok VUndef s1
           | Ok (CReturn v) s1 => Ok v s1
           | Ok (CThrow v) s1 => Thr v s1
@@ -430,45 +549,206 @@ Section Interp.
           | NoFuel => NoFuel
           | Stuck => Stuck
           end
+        end
       | CAwaitFul k =>
         match nth k (konts s) None with
         | None => Stuck
         | Some kt =>
           let s1 := set_konts s (list_set None (konts s) k None) in
-          let s2 := setvar (kvar kt) (arg0 args) s1 in
-          bind (exec f (kstmts kt) (kframes kt) (kargs kt) (Some (kcap kt)) s2) (fun k s3 =>
-            finish_async (call f) (kcap kt) k s3)
+          let v := arg0 args in
+          let r : res completion :=
+            match kkindof kt with
+            | KAwait x => exec f (kstmts kt) (kframes kt) (kargs kt) (kctx kt) (setvar x v s1)
+            | KRet => Ok (CReturn v) s1
+            | KYield x =>
+              match kctx kt with
+              | AGen g => after_yield f g v x None (kstmts kt) (kframes kt) (kargs kt) s1
+              | _ => Stuck
+              end
+            | KDeleg x inner isret =>
+              match kctx kt, v with
+              | AGen g, VIter w true =>
+                (* 15.5.5 step 7.c.viii: value = IteratorValue(innerReturnResult); if async, value = ? Await(value);
+                   return completion *)
+                if isret then await_at f KRet w [] (kframes kt) (kargs kt) (kctx kt) s1
+                else exec f (kstmts kt) (kframes kt) (kargs kt) (kctx kt) (setvar x w s1)
+              | AGen g, VIter w false => after_yield f g w x (Some inner) (kstmts kt) (kframes kt) (kargs kt) s1
+              | _, _ => throw_at f VTypeError (kframes kt) (kargs kt) (kctx kt) s1
+              end
+            | KFor x git body =>
+              match v with
+              | VIter w false => exec f body (FFor x git body :: kframes kt) (kargs kt) (kctx kt) (setvar x w s1)
+              | VIter _ true => exec f [] (kframes kt) (kargs kt) (kctx kt) s1
+              | _ => throw_at f VTypeError (kframes kt) (kargs kt) (kctx kt) s1
+              end
+            | KRethrow e => throw_at f e (kframes kt) (kargs kt) (kctx kt) s1
+            | KDelegRet x inner =>
+              match kctx kt with
+              | AGen g =>
+                (* received = return completion with the awaited value: 7.c.iv-v *)
+                bind (gen_request f RReturn inner v s1) (fun p s2 =>
+                  await_at f (KDeleg x inner true) p (kstmts kt) (kframes kt) (kargs kt) (kctx kt) s2)
+              | _ => Stuck
+              end
+            end in
+          bind r (fun k s3 => finish (call f) f (kctx kt) k s3)
         end
       | CAwaitRej k =>
         match nth k (konts s) None with
         | None => Stuck
         | Some kt =>
           let s1 := set_konts s (list_set None (konts s) k None) in
-          match find_catch (kframes kt) with
-          | None => finish_async (call f) (kcap kt) (CThrow (arg0 args)) s1
-          | Some (x, h, fr) =>
-            bind (exec f h fr (kargs kt) (Some (kcap kt)) (setvar x (arg0 args) s1)) (fun k s3 =>
-              finish_async (call f) (kcap kt) k s3)
-          end
+          (* AsyncIteratorClose with a throw completion: the original exception wins over a rejected return() *)
+          let e := match kkindof kt with KRethrow e0 => e0 | _ => arg0 args end in
+          let r : res completion :=
+            match kkindof kt, kctx kt with
+            | KDelegRet x inner, AGen g =>
+              (* the awaited return value rejected: AsyncGeneratorYield returns a throw completion, which yield*
+                 forwards to the inner generator's throw (7.b) *)
+              resumption f RThrow e x (Some inner) (kstmts kt) (kframes kt) (kargs kt) g s1
+            | _, _ => throw_at f e (kframes kt) (kargs kt) (kctx kt) s1
+            end in
+          bind r (fun k s3 => finish (call f) f (kctx kt) k s3)
         end
+      | CAGRetFul g => await_return_settled (call f) f g (inl (arg0 args)) s
+      | CAGRetRej g => await_return_settled (call f) f g (inr (arg0 args)) s
       | _ => call_builtin (call f) c args s
       end
     end
 
-  with exec (fuel : nat) (stmts : list stmt) (fr : list frame) (args : list value) (ac : option cap) (s : state)
+  (* a throw completion at a point whose enclosing frames are [fr] *)
+  with throw_at (fuel : nat) (e : value) (fr : list frame) (args : list value) (ac : actx) (s : state)
        {struct fuel} : res completion :=
     match fuel with
     | 0 => NoFuel
     | S f =>
-      let throw (e : value) (s' : state) : res completion :=
-        match find_catch fr with
-        | None => Ok (CThrow e) s'
-        | Some (x, h, fr') => exec f h fr' args ac (setvar x e s')
+      match find_catch fr with
+      | UNone => Ok (CThrow e) s
+      | UCatch x h fr' => exec f h fr' args ac (setvar x e s)
+      | UClose git fr' =>
+        (* 7.4.13 AsyncIteratorClose: innerResult = Call(return, iterator); Await(innerResult); rethrow *)
+        match getvar git s with
+        | VGen g' => bind (gen_request f RReturn g' VUndef s) (fun p s1 => await_at f (KRethrow e) p [] fr' args ac s1)
+        | _ => Stuck
+        end
+      end
+    end
+
+  (* Await(v) with the continuation (kind, rest, fr): 27.7.5.3 *)
+  with await_at (fuel : nat) (kind : kkind) (v : value) (rest : list stmt) (fr : list frame) (args : list value)
+                (ac : actx) (s : state) {struct fuel} : res completion :=
+    match fuel with
+    | 0 => NoFuel
+    | S f =>
+      match promise_resolve (call f) v s with
+      | Ok (VProm p) s2 =>
+        let k := List.length (konts s2) in
+        let s3 := set_konts s2 (konts s2 ++ [Some (mkK rest fr args ac kind)]) in
+        Ok CSuspend (perform_then p (Some (CAwaitFul k)) (Some (CAwaitRej k)) None s3)
+      | Ok _ _ => Stuck
+      | Thr e1 s2 => throw_at f e1 fr args ac s2
+      | Abort s2 => Abort s2
+      | NoFuel => NoFuel
+      | Stuck => Stuck
+      end
+    end
+
+  (* AsyncGeneratorUnwrapYieldResumption at `vX = yield ...; rest` *)
+  with resumption (fuel : nat) (rk : rkind) (v : value) (x : var) (deleg : option nat) (rest : list stmt) (fr : list frame)
+                  (args : list value) (g : nat) (s : state) {struct fuel} : res completion :=
+    match fuel with
+    | 0 => NoFuel
+    | S f =>
+      match deleg with
+      | Some inner =>
+        (* 15.5.5 yield*: forward the request to the inner generator and await its result *)
+        match rk with
+        | RReturn => await_at f (KDelegRet x inner) v rest fr args (AGen g) s     (* AsyncGeneratorUnwrapYieldResumption *)
+        | _ => bind (gen_request f rk inner v s) (fun p s1 => await_at f (KDeleg x inner false) p rest fr args (AGen g) s1)
+        end
+      | None =>
+        match rk with
+        | RNext => exec f rest fr args (AGen g) (setvar x v s)
+        | RThrow => throw_at f v fr args (AGen g) s
+        | RReturn => await_at f KRet v [] fr args (AGen g) s
+        end
+      end
+    end
+
+  (* AsyncGeneratorYield steps 9-14, after `Await(value)` gave [v] *)
+  with after_yield (fuel : nat) (g : nat) (v : value) (x : var) (deleg : option nat) (rest : list stmt) (fr : list frame)
+                   (args : list value) (s : state) {struct fuel} : res completion :=
+    match fuel with
+    | 0 => NoFuel
+    | S f =>
+      match complete_step (call f) g (inl v) false s with
+      | Ok _ s1 =>
+        match ag_queue (get_ag g s1) with
+        | r :: _ => resumption f (rq_kind r) (rq_val r) x deleg rest fr args g s1
+        | [] => Ok CSuspend (set_ag_kont g (Some (rest, fr, x, deleg)) (set_ag_state g AGYield s1))
+        end
+      | Thr e s1 => Thr e s1
+      | Abort s1 => Abort s1
+      | NoFuel => NoFuel
+      | Stuck => Stuck
+      end
+    end
+
+  (* AsyncGenerator.prototype.next / return / throw, 27.6.1.2-4 (AsyncGeneratorResume inlined) *)
+  with gen_request (fuel : nat) (rk : rkind) (g : nat) (v : value) (s : state) {struct fuel} : res value :=
+    match fuel with
+    | 0 => NoFuel
+    | S f =>
+      let '(c, s1) := new_cap s in
+      let a := get_ag g s1 in
+      let resume (s2 : state) : res value :=
+        match ag_state a with
+        | AGStart =>
+          let d := nth (ag_fn a) funs dummy_fdef in
+          bind (exec f (fbody d) [] (ag_args a) (AGen g) (set_ag_state g AGExec s2)) (fun k s3 =>
+          bind (finish_gen (call f) f g k s3) (fun _ s4 => Ok (cprom c) s4))
+        | AGYield =>
+          match ag_kont a with
+          | None => Stuck
+          | Some (rest, fr, x, deleg) =>
+            bind (resumption f rk v x deleg rest fr (ag_args a) g (set_ag_kont g None (set_ag_state g AGExec s2))) (fun k s3 =>
+            bind (finish_gen (call f) f g k s3) (fun _ s4 => Ok (cprom c) s4))
+          end
+        | _ => Ok (cprom c) s2
         end in
+      match rk, ag_state a with
+      | RNext, AGDone => bind (call f (cres c) [VIter VUndef true] s1) (fun _ s2 => Ok (cprom c) s2)
+      | RNext, _ => resume (enqueue_req g (mkRq RNext v c) s1)
+      | RReturn, (AGStart | AGDone) =>
+        bind (drain (call f) f g (set_ag_state g AGDrain (enqueue_req g (mkRq RReturn v c) s1))) (fun _ s2 => Ok (cprom c) s2)
+      | RReturn, _ => resume (enqueue_req g (mkRq RReturn v c) s1)
+      | RThrow, (AGStart | AGDone) =>
+        bind (call f (crej c) [v] (set_ag_state g AGDone s1)) (fun _ s2 => Ok (cprom c) s2)
+      | RThrow, _ => resume (enqueue_req g (mkRq RThrow v c) s1)
+      end
+    end
+
+  (* one iteration of ForIn/OfBodyEvaluation with iteratorKind async: nextResult = Await(Call(next, iterator)) *)
+  with for_step (fuel : nat) (x git : var) (body : list stmt) (fr : list frame) (args : list value) (ac : actx) (s : state)
+       {struct fuel} : res completion :=
+    match fuel with
+    | 0 => NoFuel
+    | S f =>
+      match getvar git s with
+      | VGen g' => bind (gen_request f RNext g' VUndef s) (fun p s1 => await_at f (KFor x git body) p [] fr args ac s1)
+      | _ => Stuck
+      end
+    end
+
+  with exec (fuel : nat) (stmts : list stmt) (fr : list frame) (args : list value) (ac : actx) (s : state)
+       {struct fuel} : res completion :=
+    match fuel with
+    | 0 => NoFuel
+    | S f =>
       let ev (e : expr) (k : value -> state -> res completion) : res completion :=
         match eval f e args s with
         | Ok v s1 => k v s1
-        | Thr e1 s1 => throw e1 s1
+        | Thr e1 s1 => throw_at f e1 fr args ac s1
         | Abort s1 => Abort s1
         | NoFuel => NoFuel
         | Stuck => Stuck
@@ -479,32 +759,49 @@ Section Interp.
         | [] => Ok CNormal s
         | FSeq rest :: fr' => exec f rest fr' args ac s
         | FCatch _ _ :: fr' => exec f [] fr' args ac s
+        | FFor x git body :: fr' => for_step f x git body fr' args ac s
         end
       | st :: rest =>
         match st with
         | SPrint l e => ev e (fun v s1 => exec f rest fr args ac (emit l v s1))
         | SLet x e => ev e (fun v s1 => exec f rest fr args ac (setvar x v s1))
         | SExpr e => ev e (fun _ s1 => exec f rest fr args ac s1)
-        | SReturn e => ev e (fun v s1 => Ok (CReturn v) s1)
-        | SThrow e => ev e (fun v s1 => throw v s1)
+        | SReturn e =>
+          match ac with
+          | AGen _ => ev e (fun v s1 => await_at f KRet v [] fr args ac s1)     (* 14.10.1: return awaits in async generators *)
+          | _ => ev e (fun v s1 => Ok (CReturn v) s1)
+          end
+        | SThrow e => ev e (fun v s1 => throw_at f v fr args ac s1)
         | STry body x h => exec f body (FCatch x h :: FSeq rest :: fr) args ac s
         | SHang => Abort s
         | SAwait x e =>
           match ac with
-          | None => Stuck
-          | Some cp =>
+          | ANone => Stuck
+          | _ => ev e (fun v s1 => await_at f (KAwait x) v rest fr args ac s1)
+          end
+        | SYield x e =>
+          match ac with
+          | AGen _ => ev e (fun v s1 => await_at f (KYield x) v rest fr args ac s1)   (* 15.5.5: AsyncGeneratorYield(? Await(value)) *)
+          | _ => Stuck
+          end
+        | SYieldStar x e =>
+          match ac with
+          | AGen g =>
             ev e (fun v s1 =>
-              (* 27.7.5.3 Await *)
-              match promise_resolve (call f) v s1 with
-              | Ok (VProm p) s2 =>
-                let k := List.length (konts s2) in
-                let s3 := set_konts s2 (konts s2 ++ [Some (mkK rest fr args cp x)]) in
-                Ok CSuspend (perform_then p (Some (CAwaitFul k)) (Some (CAwaitRej k)) None s3)
-              | Ok _ _ => Stuck
-              | Thr e1 s2 => throw e1 s2
-              | Abort s2 => Abort s2
-              | NoFuel => NoFuel
-              | Stuck => Stuck
+              match v with
+              | VGen inner => resumption f RNext VUndef x (Some inner) rest fr args g s1    (* received = NormalCompletion(undefined) *)
+              | _ => throw_at f VTypeError fr args ac s1                                      (* GetIterator: not iterable *)
+              end)
+          | _ => Stuck
+          end
+        | SForAwait x git e body =>
+          match ac with
+          | ANone => Stuck
+          | _ =>
+            ev e (fun v s1 =>
+              match v with
+              | VGen _ => for_step f x git body (FSeq rest :: fr) args ac (setvar git v s1)
+              | _ => throw_at f VTypeError fr args ac (setvar git v s1)                      (* GetIterator(async): not iterable *)
               end)
           end
         end
@@ -576,6 +873,17 @@ Section Interp.
           | VFun c => call f c [vb] s2
           | _ => Thr VTypeError s2
           end))
+      | ENext rk a b =>
+        bind (eval f a args s) (fun va s1 =>
+          match va with
+          | VUndef => Thr VTypeError s1          (* GetValue of the member reference throws before the argument is evaluated *)
+          | _ =>
+            bind (eval f b args s1) (fun vb s2 =>
+              match va with
+              | VGen g => gen_request f rk g vb s2
+              | _ => Thr VTypeError s2           (* EvaluateCall: not callable, after ArgumentListEvaluation *)
+              end)
+          end)
       end
     end.
 
@@ -613,7 +921,7 @@ Definition run_prog (fuel : nat) (p : prog) : option presult :=
     | Failed q PAbort => Some (mkO (out (qw q)) k (List.length (qdone q)) nb true)
     | _ => None
     end in
-  match exec (pfuns p) fuel (pmain p) [] [] None st0 with
+  match exec (pfuns p) fuel (pmain p) [] [] ANone st0 with
   | Ok k s => go (match k with CThrow v => SCThrow v | _ => SCNormal end) s
   | Abort s => go SCAbort s
   | _ => None
@@ -642,6 +950,8 @@ Fixpoint show (v : value) : string :=
   | VSettled false x => "rejected:" ++ show x
   | VTypeError => "TypeError"
   | VAggErr l => "AggregateError[" ++ go true l ++ "]"
+  | VGen _ => "AG"
+  | VIter x d => show x ++ (if d then "!" else "")
   end.
 
 Definition render (r : option presult) : list string :=
